@@ -28,22 +28,28 @@ Same(a, b)    == a = b
 (***************************************************************************)
 (* Python's binding of call arguments to parameters.                       *)
 (***************************************************************************)
+\* positional-only parameters (def f(x, /, y)): the record of such a parameter has po = TRUE.  They cannot be bound by
+\* keyword: a keyword of that name is an ordinary EXTRA keyword when the function has **kw (f(1, x=2) binds x = 1 and
+\* kw = {'x': 2}), and an error otherwise.
+IsPO(pp) == "po" \in DOMAIN pp /\ pp.po
 PyBind(sig, c) ==
   LET np    == Len(sig.pos)
       nP    == Len(c.p)
       pn    == [x \in 1..np |-> sig.pos[x].n]
       posn  == Names(sig.pos)
+      poN   == {sig.pos[x].n : x \in {y \in 1..np : IsPO(sig.pos[y])}}
+      byname == posn \ poN                  \* positional-or-keyword parameters
       kon   == Names(sig.ko)
       kwn   == {c.k[x].n : x \in 1..Len(c.k)}
       bypos == {pn[x] : x \in 1..(IF nP < np THEN nP ELSE np)}
       tooMany == nP > np /\ ~sig.va
-      dup     == kwn \cap bypos # {}
-      unknown == (kwn \ (posn \cup kon)) # {} /\ ~sig.vk
+      dup     == kwn \cap (bypos \ poN) # {}
+      unknown == (kwn \ (byname \cup kon)) # {} /\ ~sig.vk
       kwval(nm) == (CHOOSE x \in ToSet(c.k) : x.n = nm).v
-      missing == \/ \E x \in 1..np : x > nP /\ pn[x] \notin kwn /\ ~sig.pos[x].hd
+      missing == \/ \E x \in 1..np : x > nP /\ ~(pn[x] \in kwn /\ pn[x] \in byname) /\ ~sig.pos[x].hd
                  \/ \E x \in 1..Len(sig.ko) : sig.ko[x].n \notin kwn /\ ~sig.ko[x].hd
       val(nm) == IF nm \in bypos THEN c.p[CHOOSE x \in 1..np : pn[x] = nm]
-                 ELSE IF nm \in kwn THEN kwval(nm)
+                 ELSE IF nm \in kwn /\ nm \notin poN THEN kwval(nm)
                  ELSE IF nm \in posn THEN sig.pos[CHOOSE x \in 1..np : pn[x] = nm].d
                  ELSE sig.ko[CHOOSE x \in 1..Len(sig.ko) : sig.ko[x].n = nm].d
   IN IF tooMany \/ dup \/ unknown \/ missing
@@ -51,7 +57,7 @@ PyBind(sig, c) ==
      ELSE [ok |-> TRUE,
            b |-> [nm \in posn \cup kon |-> val(nm)],
            extra |-> IF nP > np THEN SubSeq(c.p, np + 1, nP) ELSE <<>>,
-           xkw |-> {x \in ToSet(c.k) : x.n \notin posn \cup kon}]
+           xkw |-> {x \in ToSet(c.k) : x.n \notin byname \cup kon}]
 
 (***************************************************************************)
 (* Which parts of a binding an ignore specification removes.               *)
